@@ -44,6 +44,9 @@ func VerifC11Split() {
 	n := vLen("n", 0, S+vParam("EXTRA", 8))
 	msg := vGenText("msg", n)
 	pieces := splitMessage(msg, S)
+	for _, p := range pieces {
+		vObserve("piece", p)
+	}
 	vCheckPieces(msg, pieces, S)
 	vReach("end")
 }
